@@ -49,6 +49,50 @@ def run(cls_name, prop, value, twice=False):
     return problems
 
 
+def observing_listeners(cls_name, prop, value):
+    """A listener that reads the property back while it is being notified sees the carried
+    value; a listener that fails does not undo the assignment."""
+    import desper
+    ev = 'on_%s_change' % prop
+    seen = []
+    t = getattr(desper, cls_name)()
+
+    def cb(self, v):
+        seen.append((v, getattr(t, prop)))
+    Reader = desper.event_handler(ev)(type('Reader', (), {ev: cb}))
+    r = Reader()
+    t.add_handler(r)
+    setattr(t, prop, value)
+    problems = []
+    for carried, read in seen:
+        if read != carried:
+            problems.append('a listener notified with %r read %s == %r during the notification'
+                            % (carried, prop, read))
+    if len(seen) != 1:
+        problems.append('%d notifications for one assignment' % len(seen))
+
+    class Boom(Exception):
+        pass
+
+    def bad(self, v):
+        raise Boom()
+    Failing = desper.event_handler(ev)(type('Failing', (), {ev: bad}))
+    t2 = getattr(desper, cls_name)()
+    f = Failing()
+    t2.add_handler(f)
+    try:
+        setattr(t2, prop, value)
+        problems.append('the exception of a listener did not propagate')
+    except Boom:
+        pass
+    got = getattr(t2, prop)
+    exp = (value % 360.) if (cls_name == 'Transform2D' and prop == 'rotation') else value
+    if got != exp:
+        problems.append('a listener was notified with %r but after its failure %s reads %r'
+                        % (value, prop, got))
+    return problems
+
+
 def values_for(cls_name, prop):
     import desper.math as dm
     if cls_name == 'Transform2D' and prop == 'rotation':
@@ -87,6 +131,22 @@ def main():
                                                   ['set', prop, repr(v)]] * (2 if twice else 1)},
                               'observed': probs[0], 'signature': 'C20:%s.%s' % (cls_name, prop)}))
             return
+    if req['mode'] == 'search':
+        import desper.math as dm
+        for cls_name in ('Transform2D', 'Transform3D'):
+            for prop in ('position', 'rotation', 'scale'):
+                if cls_name == 'Transform2D' and prop == 'rotation':
+                    v = 30.0
+                else:
+                    V = dm.Vec2 if cls_name == 'Transform2D' else dm.Vec3
+                    v = V(*([2.5] * (2 if cls_name == 'Transform2D' else 3)))
+                probs = observing_listeners(cls_name, prop, v)
+                if probs:
+                    print(json.dumps({'status': 'reproduced',
+                                      'history': {'scenario': 'observing_listeners', 'class': cls_name,
+                                                  'property': prop, 'value': repr(v)},
+                                      'observed': probs[0], 'signature': 'C20:%s.%s:observer' % (cls_name, prop)}))
+                    return
     print(json.dumps({'status': 'not-found', 'tried': len(cands)}))
 
 
